@@ -119,6 +119,50 @@ def judgeLine (thrown : List String) (st : JSt) (line : String) : JSt :=
     { st' with probe0 := o.probe }
   else st
 
+/-! ### the same oracle on structured observations (used by the top theorem `model_satisfies_spec`) -/
+
+/-- what a register snapshot shows (the fields of the `sp=… csp=… …` text) -/
+structure Obs where
+  sp : Nat
+  csp : Nat
+  ctx : Nat
+  cg : Nat
+  co : Nat
+  po : Nat
+  prog : Nat
+  ct : Nat
+  fp : Nat
+  pc : Nat
+  fio : Nat
+  vio : Nat
+  deriving DecidableEq, Repr
+
+/-- one driver-level evaluation as observed: snapshot before, snapshot after, did it fail, did the driver crash -/
+structure TopObs where
+  before : Obs
+  after : Obs
+  failed : Bool
+  crashed : Bool
+  deriving Repr
+
+/-- the register clauses of the oracle on one observed evaluation: no crash; sp, csp, chain depth and every register
+    restored from the frame as before; command_giver as before when the evaluation failed (a completed evaluation
+    may keep a command_giver it set itself) -/
+def judgeObs (o : TopObs) : List String :=
+  (if o.crashed then ["crash"] else []) ++
+  (if o.after.sp != o.before.sp then ["restore sp"] else []) ++
+  (if o.after.csp != o.before.csp then ["restore csp"] else []) ++
+  (if o.after.ctx != o.before.ctx then ["restore ctx"] else []) ++
+  (if o.failed && o.after.cg != o.before.cg then ["restore cg"] else []) ++
+  (if o.after.co != o.before.co then ["restore co"] else []) ++
+  (if o.after.po != o.before.po then ["restore po"] else []) ++
+  (if o.after.prog != o.before.prog then ["restore prog"] else []) ++
+  (if o.after.ct != o.before.ct then ["restore ct"] else []) ++
+  (if o.after.fp != o.before.fp then ["restore fp"] else []) ++
+  (if o.after.pc != o.before.pc then ["restore pc"] else []) ++
+  (if o.after.fio != o.before.fio then ["restore fio"] else []) ++
+  (if o.after.vio != o.before.vio then ["restore vio"] else [])
+
 /-- the oracle: `input` are the case lines, `impl` the canonical trace -/
 def judge (input impl : List String) : List String :=
   let thrown := thrownOf input
